@@ -128,12 +128,25 @@ def r1(ctx):
         elif isinstance(e0, ast.Call) and attr_tail(e0) == "to_numpy" and isinstance(e0.func.value, ast.Attribute) and U(e0.func.value.value) == joined:
             idcol = e0.func.value.attr
         cols = []
+        casts = []
         for e in elts[1:]:
+            # a returned mapping column converted on the way out (to_numpy(dtype=..), .astype(..), np.asarray(.., dtype=..)) is not the table's
+            # column any more: a name column cast to the rows' string width truncates mapping entries that do not occur in the rows
+            x = e
+            while isinstance(x, ast.Call) and (attr_tail(x) in ("astype",) or call_name(x) in ("np.asarray", "np.array")):
+                casts.append(U(x)[:70])
+                x = x.func.value if attr_tail(x) == "astype" else x.args[0]
+            if isinstance(x, ast.Call) and attr_tail(x) == "to_numpy" and (x.args or any(k.arg in ("dtype", "na_value") for k in x.keywords)):
+                casts.append(U(x)[:70])
+            e = x
             base = e.func.value if isinstance(e, ast.Call) and attr_tail(e) == "to_numpy" else (e.value if isinstance(e, ast.Attribute) and e.attr == "values" else None)
             if isinstance(base, ast.Attribute) and U(base.value) == table:
                 cols.append(base.attr)
             else:
                 cols.append(None)
+        ctx.check("R1", f"{f.site()}::mapping-columns-returned-unconverted", not casts, "the mapping columns are handed back as the id table holds them",
+                  f"a returned mapping column is converted on the way out ({casts}): with a supplied mapping the entries that do not occur in the rows "
+                  f"(longer names, other dtypes) are truncated or altered - the mapping that comes back is not the mapping that went in")
         ok = idcol is not None and None not in cols and cols == keys + [idcol]
         ctx.check("R1", f"{f.site()}::ids-and-mapping-from-one-table", ok,
                   f"returns ({joined}.{idcol}, {', '.join(table + '.' + str(c) for c in cols)})",
